@@ -229,13 +229,13 @@ Section Run.
               if stopped st1 then (st1, o1)
               else
                 let flag' := flag || (use_mark && buf_empty (buf_of (other o) st1)) in
-                (* minwm is dead in the Go code after the switch; the model keeps the last
-                   argument of processRecordsUpTo in it *)
+                (* minWatermark is dead in the Go code after the switch; the model keeps the watermark
+                   last forwarded in it (the "cut" of the invariant) *)
                 (set_minwm w (set_phase (OneOpen o flag') st1), o1 ++ [WM w])
           | MRec r => on_record o r flag st
           | MClose =>
               let '(st1, o1) := process_up_to max_wm flag st in
-              if stopped st1 then (st1, o1) else (set_minwm max_wm (set_phase Done st1), o1)
+              if stopped st1 then (st1, o1) else (set_phase Done st1, o1)
           end
         else (st, [])
     | _ => (st, [])
